@@ -12,6 +12,7 @@ import GeoModel.Area
 import GeoModel.Winding
 import GeoProofs.Lemmas.C05Area
 import GeoProofs.Lemmas.C05Winding
+import GeoProofs.Lemmas.C05PConvex
 import Mathlib.Tactic.NormNum
 
 namespace Geo.Proofs.C05
@@ -614,6 +615,177 @@ example : windingOrder [⟨5, 1⟩, ⟨0, 0⟩, ⟨2, 7⟩, ⟨5, 1⟩] = some .
   rw [(windingOrder_eq_sign_area_triangle_partial ⟨5, 1⟩ ⟨0, 0⟩ ⟨2, 7⟩
     (by simp) (by simp) (by simp)).2.1]
   norm_num [shoelace2, det]
+
+/-! ### Winding order against the sign of the area: convex rings
+
+`convexRing r` (GeoProofs/Lemmas/C05PConvex.lean): every coordinate of the ring lies on one closed side
+of every edge line, the same side for all edges — the half-plane definition of a convex polygon, in
+non-strict form, so repeated coordinates, collinear vertices, flat and short rings are all admitted.
+
+Why not "all consecutive turns have the same strict sign": that local condition also holds for star
+polygons (a pentagram turns left at every vertex, total turning 4π), and for those the fan
+triangles from the pivot do *not* all have the same orientation (`pentagram_fan_counterexample`
+below), so the fan argument does not go through; the half-plane condition is what "convex" means
+and is what the proof uses. Statement kept for reference, not proved ([S]):
+  (∀ consecutive triples (a, b, c) of r, cyclically, 0 < cross a b c) →
+     (windingOrder r = some .ccw ↔ 0 < twiceSignedRingArea r)
+(true also for star polygons, but it needs a winding-number argument, not a fan).
+
+Proof: `shoelace2 r = Σ_{(a,b) edge} cross s a b` for *every* apex `s` (the fan decomposition is the
+shift invariance read with `det (a-s) (b-s) = cross s a b`). With `s` a vertex of a convex ring all
+terms have the sign of the ring. The pivot triple `(pv, p, nx)` of `winding_order` consists of two
+edges `(pv, p)`, `(p, nx)` of the ring (after skipping copies of `p`); its determinant is the fan
+term of the edge `(p, nx)` seen from `pv`, so it has the sign of the ring and, when non-zero, makes
+the sum non-zero; when it is zero, `pv`, `nx` lie on one ray from the lexicographically least point
+`p`, the two half-plane conditions squeeze every coordinate onto that ray's line, and the area is
+zero. -/
+
+private theorem mem_of_mem_edges {r : List Pt} {e : Pt × Pt} (h : e ∈ edges r) : e.1 ∈ r ∧ e.2 ∈ r := by
+  obtain ⟨a, b⟩ := e
+  have := List.of_mem_zip h
+  exact ⟨this.1, List.mem_of_mem_tail this.2⟩
+
+private theorem convex_sign_core {σ : Rat} (hσ : σ * σ = 1) {r : List Pt}
+    (hc : r.head? = r.getLast?) (hcv : convexSgn σ r) {pv p nx : Pt}
+    (hp : pivotTriple r = some (pv, p, nx)) :
+    0 ≤ σ * cross pv p nx ∧ (0 < σ * cross pv p nx → 0 < σ * shoelace2 r) ∧
+      (cross pv p nx = 0 → shoelace2 r = 0) := by
+  obtain ⟨i, hl, hn, hv⟩ := (pivotTriple_some_iff r pv p nx).1 hp
+  obtain ⟨hidx, _⟩ := leastIndex_spec hl
+  obtain ⟨_, hpvm, _, hpvne, hnxne, hmin⟩ := pivot_spec r pv p nx hp
+  have e1 := pivot_next_edge hc hidx hn
+  have e2 := pivot_prev_edge hc hidx hv
+  refine ⟨?_, ?_, ?_⟩
+  · have := hcv _ e1 pv hpvm
+    simp only at this
+    rwa [cross_cyc] at this
+  · intro hpos
+    exact convex_area_pos hc hcv e1 hpvm hpos
+  · intro hz
+    have hline : ∀ q ∈ r, cross p nx q = 0 := fun q hq =>
+      collinear_pivot_zero hσ hz (hmin pv hpvm) (hmin nx (mem_of_mem_edges e1).2) hpvne hnxne
+        (hcv _ e1 q hq) (hcv _ e2 q hq)
+    rw [shoelace2_eq_fan p r hc]
+    apply sumRat_map_zero
+    intro e he
+    obtain ⟨ha, hb⟩ := mem_of_mem_edges he
+    exact cross_zero_of_collinear hnxne (hline _ ha) (hline _ hb)
+
+private theorem shoelace2_short (r : List Pt) (hc : r.head? = r.getLast?) (hl : r.length < 4) :
+    shoelace2 r = 0 := by
+  match r, hc, hl with
+  | [], _, _ => rfl
+  | [a], _, _ => rfl
+  | [a, b], hc, _ =>
+    have : a = b := by simpa using hc
+    subst this
+    simp only [shoelace2, det_self]; ring
+  | [a, b, c], hc, _ =>
+    have : a = c := by simpa using hc
+    subst this
+    simp only [shoelace2, det_swap a b]; ring
+  | _ :: _ :: _ :: _ :: _, _, hl => simp at hl; omega
+
+/-- [T] `windingOrder_eq_sign_area_convex`: for every convex ring (no further hypothesis: open,
+short, flat rings, repeated coordinates and collinear vertices included) `winding_order` is the
+sign of the exact area computed by `twice_signed_ring_area`: counter-clockwise iff positive,
+clockwise iff negative, `None` iff zero. This is the convex case of the unproved full statement
+`windingOrder_eq_sign_area` (all simple rings). -/
+theorem windingOrder_eq_sign_area_convex (r : List Pt) (hcv : convexRing r) :
+    (windingOrder r = some .ccw ↔ 0 < twiceSignedRingArea r) ∧
+    (windingOrder r = some .cw ↔ twiceSignedRingArea r < 0) ∧
+    (windingOrder r = none ↔ twiceSignedRingArea r = 0) := by
+  by_cases hc : r.head? = r.getLast?
+  swap
+  · have hcl : ringClosed r = false := by simp [ringClosed, hc]
+    have hn : windingOrder r = none := (windingOrder_none_iff r).2 (Or.inr (Or.inl hcl))
+    rw [twice_open r hc, hn]; simp
+  have hcl : ringClosed r = true := by simp [ringClosed, hc]
+  rw [twice_closed r hc]
+  by_cases hlen : r.length < 4
+  · have hn : windingOrder r = none := (windingOrder_none_iff r).2 (Or.inl hlen)
+    rw [shoelace2_short r hc hlen, hn]; simp
+  cases hp : pivotTriple r with
+  | none =>
+    have hn : windingOrder r = none := (windingOrder_none_iff r).2 (Or.inr (Or.inr (Or.inl hp)))
+    have hz : shoelace2 r = 0 := by
+      rcases (pivotTriple_none_iff r).1 hp with rfl | ⟨p, hall⟩
+      · rfl
+      · rw [shoelace2_eq_fan p r hc]
+        apply sumRat_map_zero
+        intro e he
+        obtain ⟨ha, hb⟩ := mem_of_mem_edges he
+        rw [hall _ ha, hall _ hb]; simp only [cross]; ring
+    rw [hz, hn]; simp
+  | some t =>
+    obtain ⟨pv, p, nx⟩ := t
+    have hccw : windingOrder r = some .ccw ↔ 0 < cross pv p nx := by
+      rw [windingOrder_ccw_iff]
+      constructor
+      · rintro ⟨_, _, pv', p', nx', hp', hc'⟩
+        rw [hp] at hp'; cases hp'; exact hc'
+      · intro h; exact ⟨by omega, hcl, pv, p, nx, hp, h⟩
+    have hcw : windingOrder r = some .cw ↔ cross pv p nx < 0 := by
+      rw [windingOrder_cw_iff]
+      constructor
+      · rintro ⟨_, _, pv', p', nx', hp', hc'⟩
+        rw [hp] at hp'; cases hp'; exact hc'
+      · intro h; exact ⟨by omega, hcl, pv, p, nx, hp, h⟩
+    have hnone : windingOrder r = none ↔ cross pv p nx = 0 := by
+      rw [windingOrder_none_iff]
+      constructor
+      · rintro (h | h | h | ⟨pv', p', nx', hp', hc'⟩)
+        · exact absurd h hlen
+        · rw [hcl] at h; cases h
+        · rw [hp] at h; cases h
+        · rw [hp] at hp'; cases hp'; exact hc'
+      · intro h; exact Or.inr (Or.inr (Or.inr ⟨pv, p, nx, hp, h⟩))
+    rw [hccw, hcw, hnone]
+    rcases hcv with hcv | hcv
+    · obtain ⟨h0, hpos, hzero⟩ := convex_sign_core (σ := 1) (by ring) hc ((convexCcw_iff r).1 hcv) hp
+      simp only [one_mul] at h0 hpos
+      rcases lt_or_eq_of_le h0 with h | h
+      · have := hpos h
+        exact ⟨⟨fun _ => this, fun _ => h⟩, ⟨fun h' => by linarith, fun h' => by linarith⟩,
+          ⟨fun h' => by linarith, fun h' => by linarith⟩⟩
+      · have := hzero h.symm
+        rw [this, ← h]; simp
+    · obtain ⟨h0, hpos, hzero⟩ := convex_sign_core (σ := -1) (by ring) hc ((convexCw_iff r).1 hcv) hp
+      simp only [neg_mul, one_mul] at h0 hpos
+      rcases lt_or_eq_of_le h0 with h | h
+      · have := hpos h
+        exact ⟨⟨fun h' => by linarith, fun h' => by linarith⟩, ⟨fun _ => by linarith, fun _ => by linarith⟩,
+          ⟨fun h' => by linarith, fun h' => by linarith⟩⟩
+      · have hz : cross pv p nx = 0 := by linarith
+        have := hzero hz
+        rw [this, hz]; simp
+
+/-- a convex quadrilateral given clockwise, start vertex not the least one, with a repeated
+coordinate and a collinear vertex -/
+example : windingOrder [⟨4, 0⟩, ⟨2, 0⟩, ⟨0, 0⟩, ⟨0, 0⟩, ⟨0, 3⟩, ⟨4, 3⟩, ⟨4, 0⟩] = some .cw := by
+  have hcv : convexRing [⟨4, 0⟩, ⟨2, 0⟩, ⟨0, 0⟩, ⟨0, 0⟩, ⟨0, 3⟩, ⟨4, 3⟩, ⟨4, 0⟩] := by
+    right
+    intro e he q hq
+    simp only [edges, List.tail_cons, List.zip_cons_cons, List.zip_nil_right, List.mem_cons,
+      List.not_mem_nil, or_false] at he hq
+    rcases he with rfl | rfl | rfl | rfl | rfl | rfl <;>
+      rcases hq with rfl | rfl | rfl | rfl | rfl | rfl | rfl <;> norm_num [cross]
+  rw [(windingOrder_eq_sign_area_convex _ hcv).2.1, twice_eq_shoelace _ (by decide)]
+  norm_num [shoelace2, det]
+
+/-- Why `convexRing` is not "all turns have the same sign": in the pentagram below every turn is a
+strict left turn, yet the fan triangle `(p, v₃, v₄)` from its lexicographically least vertex
+`p = (-10, 3)` is clockwise. (Its winding order and area are nevertheless both positive.) -/
+theorem pentagram_fan_counterexample :
+    let v0 : Pt := ⟨0, 10⟩; let v1 : Pt := ⟨-6, -8⟩; let v2 : Pt := ⟨10, 3⟩
+    let v3 : Pt := ⟨-10, 3⟩; let v4 : Pt := ⟨6, -8⟩
+    (0 < cross v0 v1 v2 ∧ 0 < cross v1 v2 v3 ∧ 0 < cross v2 v3 v4 ∧ 0 < cross v3 v4 v0 ∧
+      0 < cross v4 v0 v1) ∧ cross v3 v0 v1 < 0 ∧
+      windingOrder [v0, v1, v2, v3, v4, v0] = some .ccw ∧ 0 < twiceSignedRingArea [v0, v1, v2, v3, v4, v0] := by
+  intro v0 v1 v2 v3 v4
+  refine ⟨by norm_num [cross, v0, v1, v2, v3, v4], by norm_num [cross, v0, v1, v3], by decide +kernel, ?_⟩
+  rw [twice_eq_shoelace _ (by decide)]
+  norm_num [shoelace2, det, v0, v1, v2, v3, v4]
 
 /-! ### orient -/
 
